@@ -16,4 +16,17 @@ CLAIMED = {
          "(ExtrOcamlBasic), OCaml/Go harness glue. The byte array and the caller's writes are hand-modelled "
          "(Model/BipMem.v). Prefault() and NewBipBuffer's make() are not modelled."),
    technique="Coq proof (invariant + refinement by induction over histories) on a model regenerated from the Go source; differential correspondence + extracted oracle"),
+ "C11": dict(
+   text=("Coq theorems (8, closed under the global context) about the MirroredBuffer cursor code, the constructor's size "
+         "rounding and its field initialisers, all REGENERATED from bytes/mirrored_buffer.go on every run: the constructor "
+         "accepts exactly positive sizes and rounds to the next page multiple; for every accepted size (power of two or "
+         "not) and every history: no panic, invariant tail = head+used mod size, used+free = size, claims are one "
+         "contiguous slice of min(n,free) bytes at the tail inside the 2*size mapping, commits occupy consecutive ring "
+         "positions, consume frees the oldest bytes, and no position a claim can cover is the position of a queued byte. "
+         "Partial: the byte-level statements (written bytes read back unchanged) are carried by the executable memory "
+         "model only through the correspondence run; the mmap aliasing and the release of mappings/backing file are "
+         "observed by the harness (mirror=1, /proc/self/maps, stat), not proved."),
+   note=("Trusted: Coq kernel, translator, extraction, harness glue; environment assumption: virtual offset a of the double "
+         "mapping is ring byte a mod size. Page size 4096 in the executable runs (the theorems hold for any page size)."),
+   technique="Coq proof (modular-arithmetic invariant over histories) on a model regenerated from the Go source; differential correspondence + extracted ring oracle"),
 }
